@@ -35,7 +35,7 @@ EXPLANATION = (
     'parameters, q, qd and controls is decided by random interpretation in GF(2^61-1).')
 TRUSTED = ['python ast', 'AVN interpreter', 'reference dynamics in braxlint/refkin.py (kinetic energy, projected '
            'Newton-Euler, semi-implicit Euler)', 'exact linear solve over the field']
-ASSUMPTIONS = ['single-joint and free links are instantiated (stacked joints: positions only, see C01)',
+ASSUMPTIONS = ['free, single-joint and stacked (mixed hinge / slide, up to 3 per link) links are instantiated on forests of <= 5 links',
                'numeric agreement with the MuJoCo binary is not run; positive definiteness follows from the '
                'kinetic-energy form and is not separately decided']
 
@@ -45,7 +45,13 @@ TOPOLOGIES = [
     ('free root with hinge and slide children', [dict(parent=-1, joints=F), dict(parent=0, joints=H), dict(parent=0, joints=S)]),
     ('forest: slide root, hinge root with slide child', [dict(parent=-1, joints=S), dict(parent=-1, joints=H), dict(parent=1, joints=S)]),
 ]
+STACKS = [
+    ('mixed stacks: hinge-slide root with a slide-hinge child', [dict(parent=-1, joints=H + S), dict(parent=0, joints=S + H)]),
+    ('stacks: free root, slide-slide-hinge child, hinge-hinge grandchild',
+     [dict(parent=-1, joints=F), dict(parent=0, joints=S + S + H), dict(parent=1, joints=H + H)]),
+]
 THOROUGH = [
+    ('stack hinge-slide-hinge under a hinge root', [dict(parent=-1, joints=H), dict(parent=0, joints=H + S + H)]),
     ('interleaved types and depths', [dict(parent=-1, joints=F), dict(parent=-1, joints=H), dict(parent=0, joints=S),
                                       dict(parent=1, joints=H), dict(parent=2, joints=H)]),
     ('siblings: hinge root with slide and hinge children and a grandchild',
@@ -168,7 +174,7 @@ def run(U, rep, tier):
   f = U.func('brax.generalized.pipeline.step')
   s0 = int(os.environ.get('VERIF_SEED', '0') or 0)
   seeds = [s0 * 1000 + t for t in range(2 if tier == 'quick' else 5)]
-  tops = TOPOLOGIES + (THOROUGH if tier == 'thorough' else [])
+  tops = TOPOLOGIES + STACKS + (THOROUGH if tier == 'thorough' else [])
   calls = 0
   for name, links in tops:
     found = {}
